@@ -70,6 +70,9 @@ pub struct FnContract {
     pub once_true: Option<(String, Clause)>,
     /// `before-each-call f|g|.. [ID props] expr`: expr is asserted before every statement that calls one of the callees
     pub before_each: Vec<(Vec<String>, Clause)>,
+    /// `no-wait-after-final <field> <bound> f|g|.. [ID props]`: a ghost flag is set after every `let v = <..>.<field>.load(..)`
+    /// whose value is below <bound>; before every statement calling one of the callees the flag must be clear
+    pub no_wait_after_final: Option<(String, String, Vec<String>, Clause)>,
     /// closure ordinal -> (return type, ensures clause)
     pub closures: BTreeMap<usize, (String, Clause)>,
     pub attrs: Vec<String>, // extra verifier attributes, e.g. exec_allows_no_decreases_clause
@@ -106,7 +109,7 @@ pub struct Unit {
 
 const FN_KEYS: &[&str] = &[
     "emit-as", "fx", "ret", "requires", "ensures", "decreases", "loop", "bind", "bind?", "bind~", "exit-assert",
-    "hint", "attr", "shape", "exit-assert-ret", "exit-ghost", "closure", "once-true", "before-each-call",
+    "hint", "attr", "shape", "exit-assert-ret", "exit-ghost", "closure", "once-true", "before-each-call", "no-wait-after-final",
 ];
 const TOP_KEYS: &[&str] = &["unit", "fxcalls", "guardfn", "tryguardfn", "copy", "fn", "prelude", "typerewrite", "require-text", "x11-arg"];
 
@@ -289,6 +292,15 @@ pub fn parse(text: &str, path: &str) -> Unit {
                         let (mut cl, _first) = parse_tag(tail, ln);
                         cl.text = "!once__".to_string();
                         c.once_true = Some((name.to_string(), cl));
+                    }
+                    "no-wait-after-final" => {
+                        let mut ws = rest.splitn(4, char::is_whitespace);
+                        let field = ws.next().unwrap_or("").to_string();
+                        let bound = ws.next().unwrap_or("").to_string();
+                        let names: Vec<String> = ws.next().unwrap_or("").split('|').map(|x| x.to_string()).collect();
+                        let (mut cl, _first) = parse_tag(ws.next().unwrap_or(""), ln);
+                        cl.text = "!final_seen__".to_string();
+                        c.no_wait_after_final = Some((field, bound, names, cl));
                     }
                     "before-each-call" => {
                         let (names, tail) = rest.split_once(char::is_whitespace).unwrap_or_else(|| panic!("{}:{}: before-each-call <f|g> [ID props] expr", path, ln));
